@@ -569,8 +569,11 @@ def run_check(prop, tier="quick", seed=0, replay=None):
         print(f"harness error in extra stage: {type(e).__name__}: {e}", file=sys.stderr)
         log.close()
         return 2
+    extra_nontrivial = 0
     if extra_info:
         total["n"] += extra_info.get("evaluations", 0)
+        extra_nontrivial = int(extra_info.get("distinct_nontrivial", 0))  # measured by the extra stage itself
+        total["modelled"] += int(extra_info.get("modelled", 0))
         for f in extra_info.get("failures", []):
             bad_all.append(
                 {"case": f["case"], "impl": f.get("impl"), "disagree": f.get("disagree"), "oracle": f.get("why"), "extra": True}
@@ -686,7 +689,7 @@ def run_check(prop, tier="quick", seed=0, replay=None):
         "tables_regenerated": b.get("tables_changed", []),
         "evaluations": total["n"],
         "distinct_cases": len(total["keys"]),
-        "distinct_nontrivial": len(total["nontrivial_keys"]),
+        "distinct_nontrivial": len(total["nontrivial_keys"]) + extra_nontrivial,
         "compared_with_model": total["modelled"],
         "disagreements": sum(1 for r in bad_all if r.get("disagree") is not None),
         "oracle_failures": sum(1 for r in bad_all if r.get("oracle") is not None),
@@ -731,6 +734,6 @@ def run_check(prop, tier="quick", seed=0, replay=None):
     if not violations:
         print(
             f"{prop} {tier}: ok  theorems={discharged}/{obligations} cases={total['n']} "
-            f"nontrivial={len(total['nontrivial_keys'])} modelled={total['modelled']} wall={ev['wall_s']}s"
+            f"nontrivial={len(total['nontrivial_keys']) + extra_nontrivial} modelled={total['modelled']} wall={ev['wall_s']}s"
         )
     return 1 if violations else 0
